@@ -181,6 +181,15 @@ def rule_record(ctx, only=None, min_handoffs=15):
     funcs = ra_functions(ctx)
     r_thread.floor(len(funcs), 20, "record-aware functions")
     names = _ra_names(funcs)
+    # the decorator itself must hand the parsed record to the wrapped function
+    deco = ctx.prog.func("quimb.tensor.tn1d.core", "convert_cur_orthog")
+    calls = [c_ for c_ in ast.walk(deco.node) if isinstance(c_, ast.Call) and isinstance(c_.func, ast.Name) and c_.func.id == deco.posparams[0]]
+    parsed = any(isinstance(a_, ast.Assign) and isinstance(a_.value, ast.Call) and dotted(a_.value.func) == "parse_cur_orthog" and src_of(a_.targets[0]) == "info" for a_ in ast.walk(deco.node))
+    if calls and parsed and all(any(k.arg == "info" and src_of(k.value) == "info" for k in c_.keywords) for c_ in calls):
+        r_thread.ok("convert_cur_orthog", sample={"decorator": "info = parse_cur_orthog(cur_orthog, info); fn(self, *args, info=info, **kwargs)"})
+    else:
+        r_thread.bad(Finding("record-threaded", "convert_cur_orthog", "the decorator does not pass the parsed record (info=info) to the wrapped method",
+                             where=f"{deco.module.relpath}:{deco.lineno}", operand="decorator"))
     # RA methods that can return a copy (they have an `inplace` parameter);
     # all other RA methods are queries that re-gauge their receiver in place
     copying = {f.name for f in funcs if "inplace" in f.params}
